@@ -514,6 +514,26 @@ def _layout_subtrees(
                     left_info["size"].h + (subtree_spacing - trunk_height) / 2,
                 )
 
+            # A trunk wider than the gap between its child subtrees is centered
+            # on it and may stick out of the subtree's box: enlarge the box to
+            # hold it, so that it cannot run into a neighboring subtree
+            if params.orientation == Orientation.VERTICAL:
+                shift = Position(max(0, -trunk_pos.x), 0)
+                overhang = max(0, trunk_pos.x + trunk_width - state["size"].w)
+                state["size"] = Size(
+                    state["size"].w + shift.x + overhang, state["size"].h
+                )
+            else:
+                shift = Position(0, max(0, -trunk_pos.y))
+                overhang = max(0, trunk_pos.y + trunk_height - state["size"].h)
+                state["size"] = Size(
+                    state["size"].w, state["size"].h + shift.y + overhang
+                )
+
+            state["left_pos"] += shift
+            state["right_pos"] += shift
+            trunk_pos += shift
+
             state["trunk"] = Rect.make_from(trunk_pos, trunk_size)
             state["fork_thickness"] = fork_thickness
 
